@@ -17,7 +17,7 @@ from ..walk import (data_derives, data_terms, ret_alts, call_parts, call_arg, is
                     norm_stmt, ctx_tree)
 from . import c20
 from .c01 import _division_terms
-from ..walk import mult_factors
+from ..walk import mult_factors, indexed_values, index_extent, shape_dim
 
 F32_TINY = 1.1754943508222875e-38
 M = 'pb_bss.extraction.mask_module::'
@@ -281,6 +281,137 @@ def check_flatten(run, A):
                 run.check(has_int, 'R-API', f'{name}: product of the (possibly empty) leading shape is an integer', fn.loc(t.node), '',
                           'np.prod of an empty shape slice is the float 1.0; used as a reshape dimension it raises TypeError (sibling lorenz_mask passes dtype=np.int64)',
                           construct=f'R-API::{q}::prod-dtype')
+        fwd = mv0[0]
+        # the working shape is (prod(shape[:-n]), prod(shape[-n:])) of the moved array with n the number of requested axes: independent part first, the n TRAILING axes second
+        if okw:
+            def neg_count(x):
+                x = strip_views(x)
+                return x.op == 'unop' and x.args[0] == 'USub' and counts_moved_axes(x.args[1])
+            verdicts = []
+            for pos_, e_ in enumerate(elems):
+                e_ = strip_views(e_)
+                if const_val(e_) == -1:
+                    verdicts.append(True)
+                    continue
+                pr = e_ if is_call_to(e_, 'numpy.prod', 'math.prod') else None
+                a_ = strip_views(call_arg(pr, 0)) if pr is not None else None
+                if a_ is None or a_.op != 'sub' or strip_views(a_.args[1]).op != 'slice' or not (strip_views(a_.args[0]).op == 'attr' and strip_views(a_.args[0]).args[1] == 'shape'
+                                                                                                 and strip_views(strip_views(a_.args[0]).args[0]) is fwd):
+                    verdicts.append(None)
+                    continue
+                lo, hi, st_ = strip_views(a_.args[1]).args
+                if const_val(st_) is not None:
+                    verdicts.append(None)
+                elif pos_ == 0:
+                    verdicts.append(True if const_val(lo) is None and neg_count(hi) else False if const_val(lo) is None and counts_moved_axes(hi) else None)
+                else:
+                    verdicts.append(True if neg_count(lo) and const_val(hi) is None else False if counts_moved_axes(lo) and const_val(hi) is None else None)
+            if any(v is False for v in verdicts):
+                run.violation('R-ELL', f'{name}: the flattened group is the n TRAILING axes of the moved array', fn.loc(rsh[0].node),
+                              'the 2-D working shape is not (prod(shape[:-n]), prod(shape[-n:])): a slice counts the requested axes from the front (shape[:n] / shape[n:]) although the '
+                              'requested axes were moved to the END - samples of different independent slices share one threshold', construct=f'R-ELL::{q}::working-shape-split')
+            elif any(v is None for v in verdicts):
+                run.unresolved('R-ELL', f'{name}: the flattened group is the n TRAILING axes of the moved array', fn.loc(rsh[0].node), 'the two extents are not np.prod of shape[:-n] / shape[-n:] of the moved array')
+            else:
+                run.ok('R-ELL', f'{name}: the flattened group is the n TRAILING axes of the moved array', fn.loc(rsh[0].node), '(prod(shape[:-n]), prod(shape[-n:]))')
+        # the requested axes are moved to the LAST n positions: the destination is {-1, ..., -n} for every n
+        dst = strip_views(call_arg(fwd, 2, 'destination'))
+        while is_call_to(dst, 'builtin.tuple', 'builtin.list') and len(call_parts(dst)[1]) == 1:
+            dst = strip_views(call_parts(dst)[1][0])
+        decided = None
+
+        def is_count(x):
+            x = strip_views(x)
+            return is_call_to(x, 'builtin.len') and len(call_parts(x)[1]) == 1 and data_derives(call_parts(x)[1][0], 'axis')
+
+        def ev_(x, i, n_, it_=None):
+            x = strip_views(x)
+            if x.op == 'const' and isinstance(x.args[0], int) and not isinstance(x.args[0], bool):
+                return x.args[0]
+            if is_count(x):
+                return n_
+            if it_ is not None and x.op == 'elem' and x.args and x.args[0] is it_:
+                return i
+            if x.op == 'unop' and x.args[0] == 'USub':
+                v_ = ev_(x.args[1], i, n_, it_)
+                return None if v_ is None else -v_
+            if x.op == 'binop' and x.args[0] in ('Add', 'Sub', 'Mult'):
+                a_, b_ = ev_(x.args[1], i, n_, it_), ev_(x.args[2], i, n_, it_)
+                if a_ is None or b_ is None:
+                    return None
+                return a_ + b_ if x.args[0] == 'Add' else a_ - b_ if x.args[0] == 'Sub' else a_ * b_
+            return None
+
+        def range_values(rg, n_):
+            ra = [ev_(a_, 0, n_) for a_ in call_parts(rg)[1]]
+            if not ra or any(v is None for v in ra) or len(ra) > 3 or (len(ra) == 3 and ra[2] == 0):
+                return None
+            return list(range(*ra))
+        outcomes = []
+        for n_ in (1, 2, 3):
+            vals = None
+            if dst.op == 'comp' and len(dst.args[1]) == 1 and len(dst.args[2]) == 1 and not dst.args[3] and is_call_to(strip_views(dst.args[2][0]), 'builtin.range'):
+                idxs = range_values(strip_views(dst.args[2][0]), n_)
+                if idxs is not None:
+                    vals = [ev_(dst.args[1][0], i, n_, dst.args[2][0]) for i in idxs]
+            elif is_call_to(dst, 'builtin.range'):
+                vals = range_values(dst, n_)
+            if vals is None or any(v is None for v in vals):
+                outcomes = None
+                break
+            outcomes.append(sorted(vals) == sorted(-k for k in range(1, n_ + 1)))
+        if outcomes is not None:
+            decided = all(outcomes)
+        if decided is None:
+            run.unresolved('R-ELL', f'{name}: the requested axes are moved to the last n positions', fn.loc(fwd.node), 'the destination of the moveaxis is not a comprehension over range(len(axis)) of integer arithmetic')
+        else:
+            run.check(decided, 'R-ELL', f'{name}: the requested axes are moved to the last n positions', fn.loc(fwd.node), '',
+                      'the destination axes of the moveaxis are not {-1, ..., -n}: the axes that are flattened and thresholded together are not the requested ones', construct=f'R-ELL::{q}::destination')
+        # the mask is computed from the VALUES of the signal: some data path from the result to `signal` that is not only its shape / dtype (a buffer that is never filled has none)
+        from ..walk import reaches_param_avoiding
+
+        def shape_only(x):
+            if x.op == 'attr' and x.args[1] in ('shape', 'ndim', 'dtype', 'size'):
+                return True
+            return is_call_to(x, 'numpy.zeros_like', 'numpy.ones_like', 'numpy.empty_like', 'numpy.full_like', 'builtin.len', 'numpy.shape', 'numpy.ndim')
+        run.check(all(reaches_param_avoiding(r_, 'signal', shape_only) for r_ in ret_alts(g)), 'FORM', f'{name}: the mask depends on the values of the signal', fn.loc(), '',
+                  'no data path from the returned mask to `signal` other than through its shape / dtype: the buffer of the mask is never filled with the comparison',
+                  construct=f'FORM::{q}::filled')
+        # a row loop over the 2-D working array visits every row
+        W2 = rsh[0]
+        for idx_, val_, node_ in indexed_values(g):
+            if len(idx_) != 1 or not any(x is W2 for x in walk_terms(val_, into_mu=False)):
+                continue
+            ext_ = index_extent(idx_[0])
+            sd_ = shape_dim(ext_) if isinstance(ext_, T) else None
+
+            def twin(x):
+                # the working array, or a buffer created with its shape (zeros_like(W) ..., also while it is being filled)
+                x = strip_views(x)
+                for _ in range(6):
+                    if isinstance(x, T) and x.op in ('mu', 'store'):
+                        x = strip_views(x.args[0])
+                    elif is_call_to(x, 'numpy.zeros_like', 'numpy.ones_like', 'numpy.empty_like', 'numpy.full_like'):
+                        x = strip_views(call_arg(x, 0))
+                    elif is_call_to(x, 'numpy.zeros', 'numpy.ones', 'numpy.empty', 'numpy.full') and call_arg(x, 0, 'shape') is not None and \
+                            strip_views(call_arg(x, 0, 'shape')).op == 'attr' and strip_views(call_arg(x, 0, 'shape')).args[1] == 'shape':
+                        x = strip_views(strip_views(call_arg(x, 0, 'shape')).args[0])
+                    elif isinstance(x, T) and x.op == 'call' and const_val(call_arg(x, None, 'axis')) in (-1, 1) and call_arg(x, 0) is not None and \
+                            any(y is W2 for y in walk_terms(call_arg(x, 0), into_mu=False)):
+                        x = strip_views(call_arg(x, 0))          # one value per row: percentile / sum / max ... of the working array over its last axis
+                    elif isinstance(x, T) and x.op == 'gamma':
+                        alts_ = [strip_views(a_) for a_ in unwrap_gamma(x)]
+                        return bool(alts_) and all(twin(a_) for a_ in alts_)
+                    else:
+                        break
+                return x is W2
+            full_ = (sd_ is not None and twin(sd_[0]) and sd_[1] == 0) or (isinstance(ext_, tuple) and ext_[0] == 'len' and isinstance(ext_[1], T) and twin(ext_[1])) or \
+                (isinstance(ext_, tuple) and ext_[0] == 'len' and isinstance(ext_[1], tuple) and bool(ext_[1]) and all(isinstance(x, T) and twin(x) for x in ext_[1]))
+            if sd_ is None and not isinstance(ext_, tuple):
+                run.unresolved('R-ELL', f'{name}: the row loop visits every row of the working array', fn.loc(node_), 'extent of the loop not recognised')
+            else:
+                run.check(full_, 'R-ELL', f'{name}: the row loop visits every row of the working array', fn.loc(node_), '',
+                          'the loop that fills the mask row by row does not run over shape[0] (the independent slices) of the 2-D working array', construct=f'R-ELL::{q}::row-loop')
         # restore: moveaxis(mask.reshape(shape), tmp_axis, axis) mirrors moveaxis(x, axis, tmp_axis)
         def names_axis(x):
             # the caller's axis numbers themselves (not merely their count)
@@ -300,7 +431,6 @@ def check_flatten(run, A):
                             if isinstance(w, T):
                                 stack.append(w)
             return False
-        fwd = mv0[0]
         backs = [m_ for m_ in mv_all if call_arg(m_, 2) is not None and names_axis(call_arg(m_, 2)) and not names_axis(call_arg(m_, 1))]
         n_restore = 0
         for back in backs:
